@@ -397,7 +397,27 @@ func (x *Exec) copyElems(st *State, elem types.Type, dreg, dlo, n *Term, src *VS
 		return
 	}
 	if isStruct(elem) {
-		x.fail("bulk copy of struct elements unsupported")
+		// elements of a struct slice are objects elemref(region, index); their fields live in the
+		// per-field maps. A bulk copy rewrites, for every field, exactly the destination objects.
+		sty := elem.Underlying().(*types.Struct)
+		I := e.ar.I()
+		for fi := 0; fi < sty.NumFields(); fi++ {
+			ft := sty.Field(fi).Type()
+			if isStruct(ft) {
+				x.fail("bulk copy of struct elements with nested struct fields unsupported")
+			}
+			for _, l := range e.leaves(ft) {
+				name := fldName(elem, sty.Field(fi).Name(), l.Name)
+				m := st.heapGet(name, e.fldSort(l.S))
+				nm := st.heapHavoc(name, e.fldSort(l.S))
+				r := Var("$b_rcp", I)
+				idx := App("elemref_idx", I, r)
+				isDst := And(Eq(App("elemref_reg", I, r), dreg), e.ar.Cmp(token.LEQ, tInt, dlo, idx), e.ar.Cmp(token.LSS, tInt, idx, e.ar.Bin(token.ADD, tInt, dlo, n)), Eq(r, e.elemRef(dreg, idx)))
+				srcRef := e.elemRef(src.Reg, e.ar.Bin(token.ADD, tInt, src.Off, e.ar.Bin(token.SUB, tInt, idx, dlo)))
+				st.assume(Forall([]*Term{r}, Eq(Select(nm, r), Ite(isDst, Select(m, srcRef), Select(m, r))), Select(nm, r)))
+			}
+		}
+		return
 	}
 	for _, l := range e.leaves(elem) {
 		name := memName(elem, l.Name)
